@@ -101,6 +101,16 @@ def cases(tier, seed):
                         continue
                     for d in itertools.product(wide, repeat=3):
                         out.append({"shape": list(shape), "M": M, "model": model, "cls": cls, "mask": "none", "cutoff": None, "tilt": tilt, "d": list(d), "wide": True})
+    # intensity scale: density maps in small or large physical units (template and sub-volume scaled together, and only one of them)
+    for shape in ((9, 9, 9), (8, 10, 12)):
+        M = [MTAB[0][n] for n in shape]
+        for model in MODELS:
+            for cls in CLASSES:
+                if model == "FSC" and cls != "broadband":
+                    continue
+                for gain in ((1e-4, 1e-4), (1e4, 1e4), (1.0, 1e-4), (1e3, 1.0)):
+                    for d in itertools.product(*[[-m, 0.25, m] for m in M]) if tier == "thorough" else [tuple(-m for m in M), (0.25, -0.5, 0.25), tuple(M)]:
+                        out.append({"shape": list(shape), "M": M, "model": model, "cls": cls, "mask": "none", "cutoff": None, "tilt": "none", "d": [float(x) for x in d], "gain": list(gain)})
     # ranges that are zero along some axes (search in a plane or along a line)
     for shape in ((10, 10, 10), (9, 10, 11)):
         for M, ds in (((0.0, 2.0, 2.0), [(0, -2, 0.25), (0, 1.5, -0.5), (0, 0, 2)]), ((1.5, 0.0, 0.0), [(-1.5, 0, 0), (0.25, 0, 0)]), ((0.0, 0.0, 2.5), [(0, 0, -2.5), (0, 0, 0.3)])):
@@ -140,7 +150,7 @@ _CACHE = {}
 
 
 def _model(case):
-    key = (tuple(case["shape"]), tuple(case["M"]), case["model"], case["cls"], case["mask"], case["cutoff"], case["tilt"])
+    key = (tuple(case["shape"]), tuple(case["M"]), case["model"], case["cls"], case["mask"], case["cutoff"], case["tilt"], tuple(case.get("gain", (1.0, 1.0))))
     if key in _CACHE:
         return _CACHE[key]
     if len(_CACHE) > 2:
@@ -161,6 +171,7 @@ def _model(case):
         kw["tilt"] = (-60.0, 60.0)
         rn = {"I": "cube0", "gen0": "gen0"}[case["tilt"].split(":")[1]]
         quat = data.scipy_rot(rn).as_quat().astype(np.float32)
+    tmpl = (tmpl * case.get("gain", (1.0, 1.0))[0]).astype(np.float32)
     m = cls(tmpl, **kw)
     _CACHE[key] = (m, blobs, tmpl, quat)
     return _CACHE[key]
@@ -180,7 +191,7 @@ def run_case(case):
     shape = tuple(case["shape"])
     d = np.asarray(case["d"], dtype=np.float64)
     M = np.asarray(case["M"], dtype=np.float64)
-    img = (3.0 * data.particle_box(shape, shift=d, blobs=blobs) + 0.5).astype(np.float32)
+    img = (case.get("gain", (1.0, 1.0))[1] * (3.0 * data.particle_box(shape, shift=d, blobs=blobs) + 0.5)).astype(np.float32)
     res = model.align(img, tuple(float(m) for m in M), quaternion=quat)
     shift = np.asarray(res.shift, dtype=np.float64)
     err = np.abs(shift - d)
@@ -194,6 +205,8 @@ def run_case(case):
         where = "wide-range"
     if case.get("partial"):
         where = "partial-range"
+    if case.get("gain"):
+        where = "intensity-scale"
     sig = lambda kind: f"{ID}|{mname}|{kind}|{where}|mask={case['mask']}"  # noqa
     if not np.all(np.isfinite(shift)):
         viol.append((sig("non-finite"), f"shift={shift.tolist()}"))
